@@ -68,6 +68,11 @@ def cells(cls, par, tier, seed):
         near = [0.0, f_in, -f_in, 1 - eps, -(1 - eps), 1 + eps, -(1 + eps)]
         if tier == "quick":
             near = [0.0, f_in, -(1 - eps), 1 + eps, -f_in]
+        # exact face-plane / edge-line extensions outside the body (observers on the surface itself are filtered out later)
+        for ax in range(3):
+            for sg in (1.0, -1.0):
+                for u, w in ((f_out, f_in), (-f_out, f_out), (sg, f_out), (f_out, 0.0)):
+                    pts.append(tuple(np.roll(np.array([sg, u, w]), ax) * np.array([a, b, c])))
         for x in near:
             for y in near:
                 for z in near:
@@ -93,6 +98,9 @@ def cells(cls, par, tier, seed):
         rs = [0.0, 1e-3, 0.049, 0.051, f_in, 1 - eps, 1 + eps, f_out, 30.0, 1e3]
         if cls == "Circle":
             rs += [1.0]
+        else:  # exact hull / base-plane extensions outside the body
+            rs += [1.0, 0.05]
+            zs += [1.0, -1.0]
         phis = [phase, 0.0, np.pi / 2, np.pi, phase + 2.5, -phase - 1.0] if tier == "thorough" else [phase, 0.0, -phase - 1.0]
         if tier == "quick":
             zs = zs[:7] + zs[-2:-1] if cls == "Cylinder" else zs
@@ -114,6 +122,10 @@ def cells(cls, par, tier, seed):
         zs = [0.0, f_in * h / 2, h / 2 * (1 - eps), h / 2 * (1 + eps), -h / 2 * (1 + eps), f_out * h / 2, -30 * h]
         if tier == "quick":
             zs = zs[:5]
+        # exact special values (case ids of determine_cases): r = r_k, phi = phi_k, phi_k + 180, z = z_k; surface points are filtered later
+        rs += [r2] + ([r1] if r1 > 0 else [])
+        phs += [p1, p2]
+        zs += [h / 2, -h / 2]
         for r in rs:
             for ph in (phs if r > 0 else [0.0]):
                 for z in zs:
@@ -214,6 +226,10 @@ def on_source(cls, par, pts):
     return np.linalg.norm(p, axis=1) == 0  # Dipole position
 
 
+ALL_CASE_IDS = [112, 113, 115, 122, 123, 124, 125, 132, 133, 134, 135, 211, 212, 213, 214, 215, 221, 222, 223, 224, 225, 231, 232, 233,
+                234, 235]
+
+
 def wire_distance(cls, par, pts):
     p = np.array(pts, float)
     if cls == "Circle":
@@ -280,8 +296,18 @@ def reference(task):
     raise AssertionError(cls)
 
 
+_QHASH = None
+
+
 def cache_path(cls):
-    return os.path.join(common.VERIF, "cache", f"C01_{cls}.pkl")
+    """reference cache, keyed by exact input and by the hash of the oracle's source (depends on /verif only, never on /repo)"""
+    global _QHASH
+    if _QHASH is None:
+        import hashlib
+
+        with open(Q.__file__, "rb") as f:
+            _QHASH = hashlib.sha1(f.read()).hexdigest()[:10]
+    return os.path.join(common.VERIF, "refcache", f"C01_{cls}_{_QHASH}.pkl")
 
 
 def load_cache(cls):
@@ -428,6 +454,16 @@ def run(tier, seed):
     # references (cached by exact input; depends only on /verif code and the input, never on /repo)
     caches = {cls: load_cache(cls) for cls in REGIMES}
     todo = [t for t in tasks if (t[1], t[2]) not in caches[t[0]]]
+    # cache audit: a deterministic ~3% of the cached references is recomputed on every run and must agree
+    import zlib
+
+    audit = [t for t in tasks if (t[1], t[2]) in caches[t[0]] and zlib.crc32(repr(t).encode()) % 32 == (seed * 7 + 3) % 32]
+    res_a = common.pmap(reference, audit, chunk=6) if audit else []
+    audit_bad = 0
+    for t, r in zip(audit, res_a):
+        c = caches[t[0]][(t[1], t[2])]
+        if r[0] != c[0] or (r[0] in ("tensor", "H1") and not np.allclose(r[1], c[1], rtol=1e-9, atol=0)):
+            audit_bad += 1
     res = common.pmap(reference, todo, chunk=6) if todo else []
     dirty = set()
     for t, r in zip(todo, res):
@@ -440,10 +476,14 @@ def run(tier, seed):
     n_eval = n_inc = 0
     worst = {}
     worst_raw = {}
+    from mc import branches
+
+    coll = branches.Collector()
     for (cls, ri), loc in per.items():
         refs = [caches[cls][(ri, tuple(float(x) for x in p))] for p in loc]
         n_inc += sum(1 for r in refs if r[0] == "inconclusive")
-        outs, ne = evaluate(cls, ri, loc, refs, tier, ext_of[(cls, ri)])
+        with coll:
+            outs, ne = evaluate(cls, ri, loc, refs, tier, ext_of[(cls, ri)])
         n_eval += ne
         par = REGIMES[cls][ri]
         for kind, detail, i, ei, pi, field in outs:
@@ -475,6 +515,15 @@ def run(tier, seed):
         "worst_rel_err_per_class_cell": {k: float(f"{v:.3g}") for k, v in sorted(worst_raw.items())},
         "tolerances": TOL,
     }
+    cov.update(coll.report())
+    cov["reference_cache_audited"] = len(audit)
+    cov["reference_cache_audit_mismatches"] = audit_bad
+    if audit_bad:
+        harness.append(f"reference cache audit: {audit_bad} of {len(audit)} recomputed references differ from the cache")
+    missing_ids = sorted(set(ALL_CASE_IDS) - coll.case_ids)
+    cov["cylinder_segment_case_ids_missing"] = missing_ids
+    if missing_ids:
+        harness.append(f"vacuous: CylinderSegment case ids not reached: {missing_ids}")
     if n_inc > 0.05 * max(n_eval, 1):
         harness.append(f"too many inconclusive references: {n_inc}")
     return {"coverage": cov, "violations": viols, "harness_errors": harness,
